@@ -85,9 +85,27 @@ Theorem C20_sequential_schedules_are_histories : forall mx c b n1 n2 sched s1 r1
 Proof. exact seq_two_phases_reach. Qed.
 Print Assumptions C20_sequential_schedules_are_histories.
 
+(* ... and law 102, with its quiescence clause ON as the check runs it, accepts exactly what
+   the extracted model prints for selector 2 (the sequential schedule ends quiescent) *)
+Theorem C20_law_amo_accepts_sequential_output : forall mx c b n1 n2 sched s1 r1 s2 r2,
+  seq_phase mx c n1 sched (init b) = Some (s1, r1) -> seq_phase mx c n2 r1 s1 = Some (s2, r2) ->
+  law_amo mx c b (log s2) (seen s2) (enq s2) (present s2) (retries s2) true = true.
+Proof. exact law_amo_accepts_sequential_output. Qed.
+Print Assumptions C20_law_amo_accepts_sequential_output.
+
+(* non-vacuity of the two statements above and of C20_law_amo_sound: budget 2, three failed
+   Deletes (dropped), relist, executed once; the law is true on that output *)
+Example C20_sequential_example :
+  exists s1 r1 s2 r2,
+    seq_phase 2 ex_cmd 1 [1; 1; 1] (init true) = Some (s1, r1) /\ seq_phase 2 ex_cmd 1 r1 s1 = Some (s2, r2) /\
+    log s2 = [DErr; DErr; DErr; DOk] /\ enq s2 = [(7, 3, 1)] /\ drops s2 = 1%nat /\
+    law_amo 2 ex_cmd true (log s2) (seen s2) (enq s2) (present s2) (retries s2) true = true.
+Proof. exact seq_example. Qed.
+
 (* ================= PART B: model conformance statements ================= *)
 
-(* CLI: for every verb, namespace, target name and UID: exactly one Command is created; its
+(* CLI, AS THE MODEL HAS IT (conformance statement, not a guarantee about the Go code): for every
+   verb, namespace, target name and UID the model creates exactly one Command; its
    TargetObject is the controller reference of exactly the object the server returned
    for the named target, its only owner reference is that same reference, the action
    is the verb's, and the request a controller derives from it names that target *)
@@ -99,8 +117,11 @@ Theorem C20_cli_command_shape : forall v ns t,
 Proof. exact cli_command_shape. Qed.
 Print Assumptions C20_cli_command_shape.
 
-(* the two halves meet: a Command the CLI writes passes the filter of exactly the controller
-   of its verb, and the request derived from it names the GET's object and the verb's action *)
+(* a Command the CLI model writes passes the KIND half of the filter of exactly the controller of
+   its verb (the CLI model has no apiVersion field: [dcmd_of] fills it from the kind code, because
+   NewControllerRef takes both from one GroupVersionKind constant; the APIVersion string itself is
+   checked only in Go: refTokens, law 101), and the request derived from it names the GET's object
+   and the verb's action *)
 Theorem C20_cli_commands_are_accepted : forall v ns t c,
   cli_create v ns t = [c] ->
   accepts (verb_kind v) (dcmd_of c) = true /\
@@ -151,7 +172,7 @@ Print Assumptions C20_cli_at_most_one_command.
 Theorem C20_model_e2e_success_has_its_request : forall invs i,
   In i invs -> r_ok (cli_invoke i) = true ->
   exists c, cli_create (i_verb i) (i_ns i) (i_target i) = [c] /\ In (ctl_req c) (e2e_requests invs).
-Proof. exact e2e_success_is_executed. Qed.
+Proof. exact e2e_success_has_its_request. Qed.
 Print Assumptions C20_model_e2e_success_has_its_request.
 
 Theorem C20_model_e2e_at_most_one_request_per_invocation : forall invs,
@@ -167,6 +188,33 @@ Print Assumptions C20_law_cli_invocation_accepts_model.
 Theorem C20_law_cli_accepts_model : forall v ns t, law_cli v ns t (cli_create v ns t) = true.
 Proof. exact law_cli_holds. Qed.
 Print Assumptions C20_law_cli_accepts_model.
+
+(* what laws 101 and 104 MEAN (Prop-level soundness), and that the end-to-end half of law 103
+   accepts the model; law 103's per-invocation half (law_cli_invocation) has the
+   accepts-the-model statement above only *)
+Theorem C20_law_cli_sound : forall v ns t created,
+  law_cli v ns t created = true ->
+  exists c, created = [c] /\
+    o_kind (c_target c) = verb_kind v /\ o_name (c_target c) = t_name t /\ o_uid (c_target c) = t_uid t /\
+    o_controller (c_target c) = true /\ c_owners c = [c_target c] /\
+    c_action c = verb_action v /\ c_ns c = cmd_ns v ns /\ c_prefix c = (t_name t, verb_action v).
+Proof. exact law_cli_sound. Qed.
+Print Assumptions C20_law_cli_sound.
+
+Theorem C20_law_filter_sound : forall l obs jr qr,
+  law_filter l obs jr qr = true ->
+  length obs = length l /\
+  (forall d n p, In (d, (n, p)) (combine l obs) ->
+     (accepts 1 d = false -> accepts 2 d = false -> n = 0%nat /\ p = true) /\
+     (n <> 0%nat -> accepts 1 d = true \/ accepts 2 d = true) /\ (n <= 1)%nat) /\
+  jr = map (dreq 1) (filter (accepts 1) l) /\ qr = map (dreq 2) (filter (accepts 2) l).
+Proof. exact law_filter_sound. Qed.
+Print Assumptions C20_law_filter_sound.
+
+Theorem C20_law_e2e_accepts_model : forall invs,
+  law_e2e (map (fun i => r_new (cli_invoke i)) invs) (e2e_requests invs) = true.
+Proof. exact law_e2e_holds. Qed.
+Print Assumptions C20_law_e2e_accepts_model.
 
 Example C20_nonvacuous :
   let s := crun (-1) ex_cmd true [CDeliver 0; CDeliver 1; CDelete 0 DErr; CDelete 1 DOk;
